@@ -19,7 +19,7 @@ import time
 import numpy as np
 
 from runtime import oracles_C07_C09 as O
-from runtime.common import close, use_repo, rot_frame
+from runtime.common import close, use_repo, rot_frame, alternate_route
 
 RULE = ("where: every boolean array of the length bound, non-trivial when it has a True; peaks: every array of {0,1,2,3}^n x threshold "
         "x min_detection_interval, non-trivial when a run qualifies or a run is rejected for being too short; transform/detector: "
@@ -144,7 +144,7 @@ def make_detector(inp, sc):
     kw = dict(change_score=sc, bandwidth=inp["b"], threshold_scale=inp["threshold_scale"], min_detection_interval=inp["mdi"])
     if inp.get("level") is not None:
         kw["level"] = inp["level"]
-    return MovingWindow(**kw)
+    return alternate_route(MovingWindow(**kw))
 
 
 def _ambiguous(scores, th, mdi):
@@ -168,7 +168,12 @@ def check_detector(rec, inp):
     info = {"threshold": None, "cpts": None, "scores": None, "nt": False}
     cuts_ok = probe_cuts(X, b)
     exp = expected_scores(agg, n, b)
-    det, err = O.attempt(lambda: make_detector(inp, sc).fit(rot_frame(Xfit, 1)))
+    # inplace: the training frame object itself is refilled with X after fit and handed to the later calls (same object, other contents:
+    # what is reported describes the contents at the time of the call)
+    buf = rot_frame(Xfit, 1) if inp.get("inplace") and Xfit.shape == X.shape else None
+    det, err = O.attempt(lambda: make_detector(inp, sc).fit(buf if buf is not None else rot_frame(Xfit, 1)))
+    if buf is not None and err is None:
+        buf.iloc[:, :] = X
     if err is not None:
         if isinstance(err, RuntimeError) and "positive definite" in str(err):
             return info
@@ -180,7 +185,7 @@ def check_detector(rec, inp):
         return info
     th = float(det.threshold_)
     info["threshold"] = th
-    ts, err = O.attempt(lambda: det.transform_scores(rot_frame(X, 2)))
+    ts, err = O.attempt(lambda: det.transform_scores(buf if buf is not None else rot_frame(X, 2)))
     if err is not None:
         if isinstance(err, RuntimeError) and "positive definite" in str(err):
             return info
@@ -212,7 +217,7 @@ def check_detector(rec, inp):
         return info
     if not np.isfinite(th):
         return info
-    res, err = O.attempt(lambda: det.predict(rot_frame(X, 2)))
+    res, err = O.attempt(lambda: det.predict(buf if buf is not None else rot_frame(X, 2)))
     if err is not None:
         rec.violation(f"MovingWindow:predict:{type(err).__name__}:{name}", f"predict raised {err!r}", "C08.detector", inp)
         return info
@@ -379,9 +384,19 @@ def _enumerate(rec, tier, seed, bound_out):
                             pick = mids[:: max(1, len(mids) // (2 if quick else 4))][: (2 if quick else 4)]
                             variants += [dict(base, threshold_scale=float(t / info["threshold"])) for t in pick]
                         variants.append(dict(base, threshold_scale=0.0))            # scale 0: the requested threshold is 0, not a tuned one
+                        if info["threshold"] and info["scores"] is not None and info["threshold"] > 0 and pick and (n + b) % 2 == 0:
+                            # numeric scale, fitted on a four times longer series: predict compares with the FITTED threshold (aimed between
+                            # two scores of X), not with one recomputed from the series handed to predict
+                            from skchange.change_detectors import MovingWindow as _MW
+                            nf = 4 * n
+                            d0 = float(_MW.get_default_threshold(nf, p, b))
+                            if d0 > 0:
+                                variants.append(dict(base, threshold_scale=float(pick[0] / d0), Xfit=O.gen_data(rng, nf, p, "none")))
                         variants += [dict(base, threshold_scale=None, level=lv) for lv in ((0.5,) if quick else (0.5, 0.25, 0.01))]
                         if (n + b) % 3 == 0:
                             variants.append(dict(base, threshold_scale=None, level=0.4, Xfit=O.gen_data(rng, n + 2, p, "none")))
+                        if (n + b) % 3 == 1:                # tuned on a frame that is afterwards refilled in place with X and handed to predict
+                            variants.append(dict(base, threshold_scale=None, level=0.4, Xfit=O.gen_data(rng, n, p, "none"), inplace=True))
                         for d in variants:
                             inf2 = check_detector(rec, d)
                             rec.case(("det", str(spec), n, p, b, mdi, d["threshold_scale"], d.get("level"), "Xfit" in d), inf2["nt"], None)
